@@ -152,6 +152,21 @@ def do_rebuild(sents, out, shard, nshards):
                     imm = 0
                 except Exception:
                     pass
+                # the cached identity of a finished item: once published, it cannot be replaced by another value
+                for name, other in (('_hash', hash(x) ^ 1), ('_ident', ('verif-other-ident',))):
+                    try:
+                        old = getattr(x, name)
+                    except AttributeError:
+                        continue
+                    try:
+                        setattr(x, name, other)
+                    except Exception:
+                        continue
+                    imm = 0
+                    try:
+                        setattr(x, name, old)
+                    except Exception:
+                        pass
                 rec['immutable'] = imm
                 o.write(json.dumps(rec, separators=(',', ':')) + '\n')
 
